@@ -29,6 +29,9 @@ def make_use(rng, labs, pess, here_pess):
     forms = []
     forms.append({'lab': L})
     forms.append({'pos': [L, {'i': base}]})
+    xb = rng.choice([('1 << 4', 16), ('0x1000 | 4', 0x1004), ('0xff & 0x3c', 0x3c), ('8 ^ 1', 9), ('256 >> 2', 64), ('2 * 8 + 1', 17), ('0x08000000 | 0x100', 0x08000100),
+                     ('1 << 28', 1 << 28), ('~0xff & 0xfff', 0xf00), ('(3 | 4) << 8', 0x700)])
+    forms.append({'pos': [L, {'x': list(xb)}]})
     a, b = rng.choice(labs), rng.choice(labs)
     if pess[a] < pess[b]:
         a, b = b, a
